@@ -88,6 +88,16 @@ func TestVerif_C11(t *testing.T) {
 	r.Assume("links are FIFO; duplication re-delivers an already delivered frame; expiry = ageing the seen cache past its TTL and running the real cleanup")
 	r.Assume("map iteration order fixed to sorted order by the maprange rewriter")
 	var rp nsFloodScenario
+	var srp c11SchedReplay
+	if r.ReplayInto(&srp) && srp.Sched {
+		c11SchedRun(r, srp.Threads, vmc.NewReplayChooser(srp.Choices))
+		r.Add("states", 1)
+		r.Add("transitions", 1)
+		if err := r.Finish(); err != nil {
+			t.Fatal(err)
+		}
+		return
+	}
 	if r.ReplayInto(&rp) {
 		nt, err := nsFloodBuild(rp, rp.History)
 		if err != nil {
@@ -114,7 +124,11 @@ func TestVerif_C11(t *testing.T) {
 	if r.Thorough() {
 		scs = append(scs, nsFloodScenario{N: 3, Edges: [][2]int{{0, 1}, {1, 2}}, Exits: []int{0}, Announces: 2, MaxDup: 1})
 	}
-	for _, sc := range scs {
+	c11Sched(r)
+	for si, sc := range scs {
+		if si%r.Shards != r.Shard {
+			continue
+		}
 		if r.Expired() {
 			break
 		}
